@@ -51,7 +51,7 @@ func (c Collection) TryEqual(other Collection) (bool, bool) {
 			return false, true
 		}
 		if !okOne {
-			return true, true
+			continue // structurally equal complex elements: keep comparing the remaining pairs
 		}
 		primitiveOne, err := From(c[i])
 		if err != nil {
